@@ -72,73 +72,218 @@ theorem flushPlain_noquote (acc : Str) (h : ∀ c ∈ acc, isQuote c = false) :
     · simp at h'
     · exact h ch (by simpa using h')
 
-theorem hasClose_of_lit (q : Char) (cs : Str) (h : litState (some q) cs = none) (hn : '\n' ∉ cs) :
-    hasClose q cs = true := by
-  induction cs with
-  | nil => simp [litState] at h
-  | cons c cs ih =>
-    simp only [List.mem_cons, not_or] at hn
-    simp only [hasClose]
-    by_cases hq : c = q
-    · simp [hq]
-    · simp only [litState, hq, if_false] at h
-      simp only [hq, if_false]
-      rw [if_neg (fun e => hn.1 e.symm)]
-      exact ih h hn.2
+/-- text `a` ends with, and text `b` starts with, the same quote character -/
+def dqPair (a b : Str) : Bool :=
+  match a.getLast?, b.head? with
+  | some x, some y => x = y && isQuote x
+  | _, _ => false
 
-theorem chunksAux_bounds (rest : Str) : ∀ (m : Option Char) (acc : Str), '\n' ∉ rest →
-    (match m with
-     | none => (∀ c ∈ acc, isQuote c = false) ∧ litState none rest = none
-     | some q => litState none acc.reverse = some q ∧ litState (some q) rest = none) →
-    boundsOut none (chunksAux m acc rest) := by
-  induction rest with
-  | nil =>
-    intro m acc _ h
-    cases m with
-    | none =>
+def anyAdj (f : Str → Str → Bool) : List Str → Bool
+  | a :: b :: r => f a b || anyAdj f (b :: r)
+  | _ => false
+
+/-- per chunk: it starts and ends outside the literals, and it does not start with the quote character the previous
+chunk ended with -/
+def ChunksOk : Option Char → List Str → Prop
+  | _, [] => True
+  | p, c :: cs => litState none c = none ∧ (∀ x, p = some x → isQuote x = true → c.head? ≠ some x) ∧
+      ChunksOk c.getLast? cs
+
+theorem ChunksOk.bounds {p : Option Char} {cs : List Str} (h : ChunksOk p cs) : boundsOut none cs := by
+  induction cs generalizing p with
+  | nil => trivial
+  | cons c cs ih => exact ⟨h.1, ih h.2.2⟩
+
+theorem ChunksOk.nodq {p : Option Char} {cs : List Str} (h : ChunksOk p cs) : anyAdj dqPair cs = false := by
+  induction cs generalizing p with
+  | nil => rfl
+  | cons a r ih =>
+    cases r with
+    | nil => rfl
+    | cons b r' =>
+      simp only [anyAdj, Bool.or_eq_false_iff]
+      refine ⟨?_, ih h.2.2⟩
+      have hb := h.2.2.2.1
+      unfold dqPair
+      cases ha : a.getLast? with
+      | none => rfl
+      | some x =>
+        cases hbh : b.head? with
+        | none => rfl
+        | some y =>
+          simp only [Bool.and_eq_false_iff, decide_eq_false_iff_not]
+          by_cases hq : isQuote x = true
+          · left; intro e; subst e; exact hb x ha hq hbh
+          · right; simpa using hq
+
+theorem chunksOk_plain_append (X Y : List Str) (p : Option Char)
+    (hX : ∀ x ∈ X, ∀ ch ∈ x, isQuote ch = false)
+    (hY : ∀ p', (∀ x, p' = some x → isQuote x = false) → ChunksOk p' Y)
+    (hY0 : X = [] → ChunksOk p Y) : ChunksOk p (X ++ Y) := by
+  induction X generalizing p with
+  | nil => exact hY0 rfl
+  | cons x xs ih =>
+    have hx := hX x (List.mem_cons_self ..)
+    refine ⟨litState_noquote x hx, ?_, ?_⟩
+    · intro q _ hq hh
+      have : q ∈ x := List.mem_of_mem_head? hh
+      rw [hx q this] at hq; cases hq
+    · apply ih _ (fun y hy => hX y (List.mem_cons_of_mem _ hy))
+      intro _
+      apply hY
+      intro q hq
+      exact hx q (List.mem_of_getLast? hq)
+
+theorem splitSep_ne (acc s : Str) : splitSep acc s ≠ [] := by
+  induction s generalizing acc with
+  | nil => simp [splitSep]
+  | cons c cs ih => simp only [splitSep]; split <;> simp [ih]
+
+theorem flushPlain_nil (acc : Str) (h : flushPlain acc = []) : acc = [] := by
+  unfold flushPlain at h
+  split at h
+  · assumption
+  · exact absurd h (splitSep_ne _ _)
+
+theorem flushPlain_quotefree (acc : Str) (h : ∀ c ∈ acc, isQuote c = false) :
+    ∀ x ∈ flushPlain acc, ∀ ch ∈ x, isQuote ch = false := by
+  intro x hx ch hch
+  unfold flushPlain at hx
+  split at hx
+  · simp at hx
+  · rcases splitSep_mem [] acc.reverse x hx ch hch with h' | h'
+    · simp at h'
+    · exact h ch (by simpa using h')
+
+theorem matchLit_split (q : Char) : ∀ (cs b r : Str), matchLit q cs = some (b, r) → cs = b ++ r ∧ b ≠ []
+  | [], b, r, h => by simp [matchLit] at h
+  | [c], b, r, h => by
+      simp only [matchLit] at h
+      split at h
+      · simp at h; obtain ⟨rfl, rfl⟩ := h; simp
+      · simp at h
+  | c :: c2 :: cs2, b, r, h => by
+      simp only [matchLit] at h
+      split at h
+      · split at h
+        · split at h
+          · next b' r' hm =>
+            have := matchLit_split q cs2 b' r' hm
+            simp at h; obtain ⟨rfl, rfl⟩ := h; simp [this.1]
+          · simp at h; obtain ⟨rfl, rfl⟩ := h; simp
+        · simp at h; obtain ⟨rfl, rfl⟩ := h; simp
+      · split at h
+        · simp at h
+        · split at h
+          · next b' r' hm =>
+            have := matchLit_split q (c2 :: cs2) b' r' hm
+            simp at h; obtain ⟨rfl, rfl⟩ := h; simp [this.1]
+          · simp at h
+
+/-- inside a terminated literal on one line the pattern matches the whole Fortran literal: it ends outside the literal,
+ends with the quote, and the text after it does not go on with the same quote (no backing up happens) -/
+theorem matchLit_wq (q : Char) (hq : isQuote q = true) : ∀ (cs : Str), litState (some q) cs = none → '\n' ∉ cs →
+    ∃ b r, matchLit q cs = some (b, r) ∧ litState (some q) b = none ∧ litState none r = none ∧
+      r.head? ≠ some q ∧ b.getLast? = some q
+  | [], h, _ => by simp [litState] at h
+  | [c], h, _ => by
+      by_cases hc : c = q
+      · subst hc; exact ⟨[c], [], by simp [matchLit], by simp [litState], rfl, by simp, rfl⟩
+      · simp [litState, hc] at h
+  | c :: c2 :: cs2, h, hn => by
+      simp only [List.mem_cons, not_or] at hn
+      by_cases hc : c = q
+      · subst hc
+        simp only [litState, if_true] at h
+        by_cases hc2 : c2 = c
+        · subst hc2
+          simp only [hq, if_true] at h
+          obtain ⟨b, r, hm, h1, h2, h3, h4⟩ := matchLit_wq c2 hq cs2 h hn.2.2
+          refine ⟨c2 :: c2 :: b, r, by simp [matchLit, hm], by simp [litState, h1, hq], h2, h3, ?_⟩
+          have hb := (matchLit_split c2 cs2 b r hm).2
+          cases b with
+          | nil => exact absurd rfl hb
+          | cons x xs => simpa using h4
+        · refine ⟨[c], c2 :: cs2, by simp [matchLit, hc2], by simp [litState], h, by simp; exact hc2, rfl⟩
+      · simp only [litState, hc, if_false] at h
+        have hn' : '\n' ∉ c2 :: cs2 := by simp only [List.mem_cons, not_or]; exact ⟨hn.2.1, hn.2.2⟩
+        obtain ⟨b, r, hm, h1, h2, h3, h4⟩ := matchLit_wq q hq (c2 :: cs2) h hn'
+        have hnl : ¬ c = '\n' := fun e => hn.1 e.symm
+        refine ⟨c :: b, r, by simp [matchLit, hc, hnl, hm], by simp [litState, hc, h1], h2, h3, ?_⟩
+        have hb := (matchLit_split q _ b r hm).2
+        cases b with
+        | nil => exact absurd rfl hb
+        | cons x xs => simpa using h4
+
+theorem chunksAux_count : ∀ (b : Str) (acc r : Str), b ≠ [] →
+    chunksAux b.length acc (b ++ r) = (acc.reverse ++ b) :: chunksAux 0 [] r
+  | [], _, _, h => absurd rfl h
+  | [c], acc, r, _ => by simp [chunksAux]
+  | c :: c' :: b', acc, r, _ => by
+      have := chunksAux_count (c' :: b') (c :: acc) r (by simp)
+      simp only [List.length_cons, List.cons_append] at this ⊢
+      rw [chunksAux]
+      simp only [Nat.add_one_ne_zero, if_false]
+      rw [this]; simp
+
+/-- the finditer loop on a well-quoted remainder: every chunk is outside-to-outside and no chunk starts with the quote
+its predecessor ended with -/
+theorem chunksAux_ok : ∀ (rest acc : Str) (p : Option Char), '\n' ∉ rest → (∀ c ∈ acc, isQuote c = false) →
+    litState none rest = none →
+    (acc = [] → ∀ x, p = some x → isQuote x = true → rest.head? ≠ some x) →
+    ChunksOk p (chunksAux 0 acc rest)
+  | [], acc, p, _, hacc, _, _ => by
       simp only [chunksAux]
-      have := boundsOut_plain_append (flushPlain acc) [] (flushPlain_noquote acc h.1) trivial
+      have := chunksOk_plain_append (flushPlain acc) [] p (flushPlain_quotefree acc hacc)
+        (fun _ _ => trivial) (fun _ => trivial)
       simpa using this
-    | some q => simp [litState] at h
-  | cons c cs ih =>
-    intro m acc hn h
-    simp only [List.mem_cons, not_or] at hn
-    cases m with
-    | none =>
-      simp only [chunksAux]
-      obtain ⟨hacc, hlit⟩ := h
+  | c :: cs, acc, p, hn, hacc, hlit, hp => by
+      simp only [List.mem_cons, not_or] at hn
       by_cases hq : isQuote c = true
       · simp only [litState, hq, if_true] at hlit
-        have hc := hasClose_of_lit c cs hlit hn.2
-        simp only [hq, hc, Bool.and_self, if_true]
-        apply boundsOut_plain_append _ _ (flushPlain_noquote acc hacc)
-        apply ih (some c) [c] hn.2
-        exact ⟨by simp [litState, hq], hlit⟩
+        obtain ⟨b, r, hm, h1, h2, h3, h4⟩ := matchLit_wq c hq cs hlit hn.2
+        obtain ⟨hcs, hb⟩ := matchLit_split c cs b r hm
+        have hnr : '\n' ∉ r := by intro h; exact hn.2 (by rw [hcs]; exact List.mem_append_right _ h)
+        have hlast : (c :: b).getLast? = some c := by
+          cases b with
+          | nil => exact absurd rfl hb
+          | cons x xs => simpa using h4
+        have hrec : ChunksOk (some c) (chunksAux 0 [] r) :=
+          chunksAux_ok r [] (some c) hnr (by simp) h2 (by
+            intro _ x hx _; simp at hx; subst hx; exact h3)
+        have hY : ∀ p', (∀ x, p' = some x → isQuote x = true → c ≠ x) →
+            ChunksOk p' ((c :: b) :: chunksAux 0 [] r) := by
+          intro p' hp'
+          refine ⟨by simp [litState, hq, h1], ?_, by rw [hlast]; exact hrec⟩
+          intro x hx hqx hh
+          simp at hh
+          exact hp' x hx hqx hh
+        simp only [chunksAux, hq, if_true, hm]
+        rw [hcs, chunksAux_count b [c] r hb]
+        simp only [List.reverse_cons, List.reverse_nil, List.nil_append, List.singleton_append]
+        apply chunksOk_plain_append _ _ p (flushPlain_quotefree acc hacc)
+        · intro p' hp'
+          apply hY
+          intro x hx hqx _
+          rw [hp' x hx] at hqx; cases hqx
+        · intro hnil
+          apply hY
+          intro x hx hqx he
+          have := hp (flushPlain_nil acc hnil) x hx hqx
+          simp at this
+          exact this he
       · have hq' : isQuote c = false := by simpa using hq
         simp only [litState, hq', Bool.false_eq_true, if_false] at hlit
-        simp only [hq', Bool.false_and, Bool.false_eq_true, if_false]
-        apply ih none (c :: acc) hn.2
-        refine ⟨?_, hlit⟩
+        simp only [chunksAux, hq', Bool.false_eq_true, if_false]
+        apply chunksAux_ok cs (c :: acc) p hn.2 _ hlit (by simp)
         intro x hx
         simp at hx
         rcases hx with rfl | hx
         · exact hq'
         · exact hacc x hx
-    | some q =>
-      simp only [chunksAux]
-      obtain ⟨hacc, hlit⟩ := h
-      by_cases hq : c = q
-      · subst hq
-        simp only [litState, if_true] at hlit
-        simp only [if_true]
-        refine ⟨?_, ih none [] hn.2 ⟨by simp, hlit⟩⟩
-        rw [List.reverse_cons, litState_append, hacc]
-        simp [litState]
-      · simp only [litState, hq, if_false] at hlit
-        simp only [hq, if_false]
-        apply ih (some q) (c :: acc) hn.2
-        refine ⟨?_, hlit⟩
-        rw [List.reverse_cons, litState_append, hacc]
-        simp [litState, hq]
+termination_by rest => rest.length
+decreasing_by
+  all_goals simp_wf
+  · have := congrArg List.length hcs; simp at this; omega
 
 end LokiModel.C04
